@@ -265,7 +265,7 @@ Ltac reg_clause :=
   | hA3 : A3 _ _ _ |- A3 _ _ _ => intros k0 s0 Hk0; specialize (hA3 k0 s0); t3
   | hA4 : A4 (sessions ?S) _, hA3 : A3 _ _ _ |- A4 _ _ => intros s0 b c0 Hs0; specialize (hA4 s0 b c0);
       first [ solve [destruct b; t3] | solve [pose proof (hA3 (s_key (ses S s0)) s0); destruct b; t3] ]
-  | hA5 : A5 _ _ |- A5 _ _ => intros k0 s0 Hk0; specialize (hA5 k0 s0); t3
+  | hA5 : A5 _ _, hA3 : A3 _ _ _ |- A5 _ _ => intros k0 s0 Hk0; specialize (hA5 k0 s0); pose proof (hA3 k0 s0); t3
   | hB1 : B1 _ _ _ _ _ |- B1 _ _ _ _ _ => intros c0 Ha; specialize (hB1 c0); t3
   | hB2 : B2 _ _, Hns : forall s b, side _ b <> Some _ |- B2 _ _ => intros s0 b c0 Hs0; specialize (hB2 s0 b c0); specialize (Hns s0 b); destruct b; t3
   | hB4 : B4 _ _ _, Hns : forall s b, side _ b <> Some _ |- B4 _ _ _ => intros s0 b c0 Hs0; specialize (hB4 s0 b c0); specialize (Hns s0 b); destruct b; t3
